@@ -197,7 +197,82 @@ def bounded_c26(tier, seed):
     return guarded(p, _check_c26, tier, seed)
 
 
-BOUNDED = [bounded_c26]
+def type_query_histories(part: Part, tier, seed, pid="C26"):
+    """Cache transparency of the lru-cached TypeSystem queries: on a bare TypeSystem every query is asked after every graph
+    update of a history (single edges in every order, also an edge that only shortens an existing path, and the numeric
+    tower), and each answer is compared with the answer the same TypeSystem gives once every lru cache has been emptied."""
+    import random
+    from pynguin.analyses.typesystem import Instance, TypeSystem
+
+    class Base: ...
+    class Mid(Base): ...
+    class Leaf(Mid, Base): ...        # lists a transitive base explicitly: Base -> Leaf arrives when Base -> Mid -> Leaf exists
+    class Other: ...
+    classes = [Base, Mid, Leaf, Other, int, float, bool, complex, object]
+    cached = [n for n in dir(TypeSystem) if hasattr(getattr(TypeSystem, n), "cache_clear")]
+
+    def ask(ts, infos):
+        out = {}
+        inst = {c: Instance(i) for c, i in infos.items()}
+        for a, b in itertools.product(classes, repeat=2):
+            out[("is_subclass", a.__name__, b.__name__)] = ts.is_subclass(infos[a], infos[b])
+            out[("is_subtype", a.__name__, b.__name__)] = ts.is_subtype(inst[a], inst[b])
+            out[("is_maybe_subtype", a.__name__, b.__name__)] = ts.is_maybe_subtype(inst[a], inst[b])
+            out[("subtype_distance", a.__name__, b.__name__)] = ts.subtype_distance(inst[a], inst[b])
+        for a in classes:
+            out[("get_subclasses", a.__name__)] = sorted(t.qualname for t in ts.get_subclasses(infos[a]))
+            out[("get_superclasses", a.__name__)] = sorted(t.qualname for t in ts.get_superclasses(infos[a]))
+        return out
+    edges = [(Base, Mid), (Mid, Leaf), (Base, Leaf), (object, Base), (object, Other)]
+    updates = [("edge", e) for e in edges] + [("tower", None)]
+    orders = list(itertools.permutations(range(len(updates))))
+    rng = random.Random(seed)
+    rng.shuffle(orders)
+    orders = orders[: (240 if tier == "thorough" else 48)]
+    for order in orders:
+        part.case()
+        ts = TypeSystem()
+        for n in cached:
+            getattr(TypeSystem, n).cache_clear()
+        infos = {c: ts.to_type_info(c) for c in classes}
+        ask(ts, infos)                                  # fill the caches before the first update
+        done = []
+        for k in order:
+            kind, e = updates[k]
+            if kind == "edge":
+                ts.add_subclass_edge(super_class=infos[e[0]], sub_class=infos[e[1]])
+                done.append(f"add_subclass_edge({e[0].__name__}, {e[1].__name__})")
+            else:
+                ts.enable_numeric_tower()
+                done.append("enable_numeric_tower()")
+            got = ask(ts, infos)
+            for n in cached:
+                getattr(TypeSystem, n).cache_clear()
+            want = ask(ts, infos)
+            diff = [q for q in got if got[q] != want[q]]
+            if diff:
+                q = diff[0]
+                part.violation("cached type queries agree with a recomputation on the final type graph", f"stale:{q[0]}:after-{kind}",
+                               {"history(queries after every step)": list(done), "query": list(q), "cached_answer": got[q],
+                                "recomputed_answer": want[q], "stale_queries": len(diff)},
+                               target=f"{TS}:TypeSystem.{'enable_numeric_tower' if kind == 'tower' else 'add_subclass_edge'}")
+                break
+    for n in cached:
+        getattr(TypeSystem, n).cache_clear()
+
+
+def bounded_type_histories(tier, seed):
+    p = Part("C26", "type-query-histories", [f"{TS}:TypeSystem.add_subclass_edge", f"{TS}:TypeSystem.enable_numeric_tower",
+                                             f"{TS}:TypeSystem.is_subclass", f"{TS}:TypeSystem.is_subtype", f"{TS}:TypeSystem.is_maybe_subtype",
+                                             f"{TS}:TypeSystem.subtype_distance", f"{TS}:TypeSystem.get_subclasses", f"{TS}:TypeSystem.get_superclasses"],
+             scope="bare TypeSystem over 4 classes (one listing a transitive base explicitly) and int/float/bool/complex/object: 48 "
+                   "(thorough 240) seeded orders of 5 add_subclass_edge updates and enable_numeric_tower; all 6 lru-cached queries on "
+                   "all pairs after every update, compared with the same queries after emptying every lru cache",
+             bound="9 classes, 6 updates per history")
+    return guarded(p, type_query_histories, tier, seed)
+
+
+BOUNDED = [bounded_c26, bounded_type_histories]
 META = {"level": "other", "explanation": "bounded contract check of the real generator providers and cached type queries on a "
                                          "generated module, queries interleaved with updates",
         "rule": "one case per (step of a history, requested type)"}
